@@ -33,6 +33,7 @@ var mains = map[string]func(map[string]string){
 	"c04": c04Main,
 	"c05": c05Main,
 	"c11": c11Main,
+	"c19": c19Main,
 }
 
 var startAt int // first case index the worker executes
